@@ -81,6 +81,13 @@ theorem C07_chain_value (tl : List (Bool × Opd)) (L : E) (sL : S)
     SEq (den (T L (eOf tl))) (semFold sL (sOf tl)) :=
   T_sem tl L sL hall hL hb
 
+/-- **array sections keep their bounds**: for every combination of present/absent lower bound, upper bound and stride
+(whatever the bounds are — in particular the literal `0`), the `RangeIndex` built by `map_slice` has exactly these
+three parts -/
+theorem C07_section_faithful {α : Type} (lo hi st : Option α) :
+    rangeOf (mapSlice (sliceChildren lo hi st)) = (lo, hi, st) := by
+  cases lo <;> cases hi <;> cases st <;> rfl
+
 /-! ### non-vacuity -/
 
 /-- `a - b*c/d + (-e)**2 < f .and. .not. (p .or. q)` satisfies the hypotheses of `C07_partial` -/
